@@ -44,7 +44,12 @@ def miss_classes(ctx):
                         and isinstance(d.args[0], ast.Constant) and d.args[0].value == 'delete':
                     prims.append(('delete-handler', n, c))
     kinds = {k for k, _, _ in prims}
-    ctx.require(kinds == {'delitem', 'delattr', 'delete-handler'}, 'Delete._del_one: deletion primitives found: %s' % sorted(kinds))
+    gh = [c for c in calls_in(u) if isinstance(c.func, ast.Attribute) and c.func.attr == 'get_handler' and c.args
+          and isinstance(c.args[0], ast.Constant) and c.args[0].value == 'delete']
+    per_dest = bool(gh) and all(len(c.args) > 1 and is_name(c.args[1], dest) for c in gh) and 'delete-handler' in kinds
+    ctx.ob(per_dest, u, "the 'delete' handler is looked up for the very object being deleted from, at each deletion: %s" % [norm(c) for c in gh],
+           '' if per_dest else 'a handler chosen once (or kept on the spec) is applied to destinations of other types')
+    ctx.require(kinds >= {'delitem', 'delattr'}, 'Delete._del_one: deletion primitives found: %s' % sorted(kinds))
     seen = {}
     for kind, node, expr in prims:
         hs = cfg.handlers_reached_from(node)
@@ -80,6 +85,8 @@ def miss_classes(ctx):
     ctx.ob(set(by) == {'[', '.', 'P'}, u, 'deletion dispatches on the three final step kinds: %s' % sorted(by))
     pk = {'[': 'delitem', '.': 'delattr', 'P': 'delete-handler'}
     for code, b in by.items():
+        if pk.get(code) not in kinds:
+            continue
         inside = [k for k, n, e in prims if any(e is x or (isinstance(e, ast.stmt) and e is x) for s in b.body for x in ast.walk(s))]
         ctx.ob(inside == [pk.get(code)], u, '%r deletes with %s' % (code, pk.get(code)), 'found %s' % inside)
     # the primitive's operands
